@@ -429,6 +429,14 @@ def run(ctx: Ctx) -> int:
     ctx.oblige("C09.e", ok, adds[0] if adds else hc, "the lazily added --print_shtab action is added at most once" if ok else "--print_shtab can be added on every parse", fn=hc)
 
     ctx.trusted_base += ["argparse dispatches to Action.__call__ and to the _parse_optional hook only from inside _parse_known_args"]
+    # a signature default that is an INSTANCE (engine: Engine = Turbo(power=3)) is replaced by a class spec, so that every
+    # instantiate_classes call builds a new object; the test that recognises such defaults covers subclasses
+    ipd = ctx.func("_parameter_resolvers:is_param_subclass_instance_default")
+    inst_tests = [c for c in calls_in(ipd) if call_leaf(c) == "isinstance" and "default" in ast.unparse(c.args[0])]
+    exact_tests = [c_ for c_ in ast.walk(ipd) if isinstance(c_, ast.Compare) and isinstance(c_.left, ast.Call) and call_leaf(c_.left) == "type" and "default" in ast.unparse(c_.left)]
+    ok = bool(inst_tests) and not exact_tests
+    ctx.oblige("C09.c", ok, (exact_tests or inst_tests or [ipd])[0], "an instance default of the declared class or of any subclass is recognised (isinstance)" if ok else "instance defaults are recognised by exact class only: `engine: Engine = Turbo(power=3)` stays a live object - every instantiate_classes call hands out the SAME instance, the one stored in the function's __defaults__; a change made through one result shows in every later one", fn=ipd, construct="instance defaults of subclasses become specs")
+
     # ---------------- C09.f the yaml customisation stays private to the library's classes ----------------------------
     # remove_implicit_resolver copies the class's resolver table SHALLOWLY: the lists inside are still the ones of
     # PyYAML's own Resolver / SafeLoader / SafeDumper.  The lists must therefore be replaced (every entry rebound to
